@@ -716,8 +716,8 @@ theorem inv_applyOp {s : St} (h : Inv s) (o : Op) : Inv (applyOp s o) := by
   | pStop =>
     exact inv_teamQuit (s := { s with joined := true, started := false, limit := 0 })
       (inv_congr h rfl rfl rfl rfl rfl rfl rfl rfl)
-  | pCall t r =>
-    show Inv (s.poolCall t r)
+  | pCall t r cb =>
+    show Inv (s.poolCall t r cb)
     unfold St.poolCall
     split
     · exact inv_emit h _
